@@ -12,6 +12,9 @@ import tracecheck
 KINDS = ("pass", "add", "acc", "count", "delay", "echo", "echo", "sum2", "sumu", "sample", "sample2", "sampleu", "lsum", "lsumv")
 
 
+KEEP = {"slots", "ret", "req", "eval", "gstop", "gstart", "gstartfail"}
+
+
 def with_slots(scn):
     return scn.replace("opt start=", "opt slots=1 start=", 1)
 
@@ -102,8 +105,9 @@ def run(chk, pid, rng, n, own_prefixes):
             continue
         if any(e["e"] in ("wirefail", "harnessfail") for e in tr):
             continue
-        items.append({"id": k, "prog": {}, "ev": [e for e in tr if e["e"] in ("slots", "ret")]})
-    verdicts, st, trn = tracecheck.validate("SlotTrace", "SlotTrace.cfg", items, "slots-" + pid, keep={"slots", "ret"})
+        end = int([x for x in scn.splitlines()[1].split() if x.startswith("end=")][0][4:])
+        items.append({"id": k, "prog": {"end": end, "own": pid}, "ev": [e for e in tr if e["e"] in KEEP]})
+    verdicts, st, trn = tracecheck.validate("SlotTrace", "SlotTrace.cfg", items, "slots-" + pid, keep=KEEP)
     chk.coverage["states"] += st
     chk.coverage["transitions"] += trn
     chk.coverage["traces_validated_against_impl"] += len(items)
